@@ -26,14 +26,17 @@ import Glom.Model.C19Env
        "flagfile":[[path,{"err":cls}|{"exc":cls}|{"lines":[{"err":cls}|{"tok":[…]}…]}]…]   "abspath":[[path,abs]…]
     "raw":   the argument list as the process receives it (["glom", …]); when present the model PARSES it
              (Model/C19Face) and, when "argv" is present too, must arrive at these flags
-    "stdin_open": bool (default true)
+    "stdin_state": "open" | "closed" | "absent"   (sys.stdin usable / .close()d / None)
+    EVERY field named here must be present (null where "not given"): a missing key, a row that does not
+    decode, a result without its `scalar` row, a reference lookup without its oracle row are ERRORS.
     "impl":  {"outcome":{"exit":[code,stdout]}|{"usage":true}|{"cli":true}|{"exc":cls},"side_effect":b}
     channel mode — the same request through several deliveries:
     "req":   {"spec":text,"target":text,"fmt":s|null,"indent":n|null,"scalar":b,"spec_format":s|null,
               "spec_path":path,"target_path":path,"junk":text,"tty":b}
     "vias":  [[sv,tv]…]  sv ∈ argv|file, tv ∈ argv|file|dash|dashfile|piped
     "impl_vias": [{"outcome":…,"side_effect":b}…]   aligned with "vias"
-  A lookup that misses its table yields the class "<no-oracle>".
+  A lookup that misses its table yields the marker "<no-oracle>": in the REFERENCE that is a driver error
+  (the oracle is incomplete), in the MODEL only it is a disagreement (the model took another path).
 -/
 namespace Glom.C19.Driver
 open Lean Glom Glom.C19
@@ -43,10 +46,27 @@ def arr (j : Json) : Except String (List Json) :=
   | .arr a => .ok a.toList
   | _ => .error s!"expected array, got {j.compress}"
 
-def optStr (j : Json) (k : String) : Option String :=
+/-- a field that must be THERE: a string, or null for "not given" (a missing key, or any other
+    type, is a decoding error — never a silent default) -/
+def nullableStr (j : Json) (k : String) : Except String (Option String) :=
   match j.getObjVal? k with
-  | .ok (.str s) => some s
-  | _ => none
+  | .ok (.str s) => .ok (some s)
+  | .ok .null => .ok none
+  | .ok x => .error s!"field {k}: expected a string or null, got {x.compress}"
+  | .error _ => .error s!"field {k} is missing"
+
+def nullableInt (j : Json) (k : String) : Except String (Option Int) :=
+  match j.getObjVal? k with
+  | .ok .null => .ok none
+  | .ok (.num n) => if n.exponent == 0 then .ok (some n.mantissa) else .error s!"field {k}: not an integer"
+  | .ok x => .error s!"field {k}: expected an integer or null, got {x.compress}"
+  | .error _ => .error s!"field {k} is missing"
+
+def reqBool (j : Json) (k : String) : Except String Bool :=
+  match j.getObjVal? k with
+  | .ok (.bool b) => .ok b
+  | .ok x => .error s!"field {k}: expected a boolean, got {x.compress}"
+  | .error _ => .error s!"field {k} is missing"
 
 def resOfJson (j : Json) : Except String Nat :=
   if let .ok n := j.getObjValAs? Nat "ok" then .ok n
@@ -116,13 +136,13 @@ def tablesOfJson (e files : Json) : Except String Tables := do
     return (← a.getNat?, ← b.getBool?, ← c.getStr?))
   -- what reading each file gives: the oracle's table when present (undecodable bytes, directories),
   -- else the content itself
-  let rd : List (String × Except String String) := match e.getObjVal? "read" with
-    | .ok (.arr rows) => rows.toList.filterMap (fun row => match row with
-        | .arr #[.str p, r] =>
-          if let .ok t := r.getObjValAs? String "ok" then some (p, .ok t)
-          else if let .ok c := r.getObjValAs? String "err" then some (p, .error c) else none
-        | _ => none)
-    | _ => []
+  let rd : List (String × Except String String) ← (← arr (← e.getObjVal? "read")).mapM (fun row =>
+    match row with
+    | .arr #[.str p, r] =>
+      if let .ok t := r.getObjValAs? String "ok" then pure (p, (.ok t : Except String String))
+      else if let .ok c := r.getObjValAs? String "err" then pure (p, .error c)
+      else throw s!"bad read row {row.compress}"
+    | _ => throw s!"bad read row {row.compress}")
   let fl ← (← arr files).mapM (fun row => do
     match ← arr row with
     | [p, c] =>
@@ -134,39 +154,46 @@ def tablesOfJson (e files : Json) : Except String Tables := do
       | none, _ => return (p, none)
     | _ => throw "bad files row")
   let readErr := rd.filterMap (fun r => match r.2 with | .error c => some (r.1, c) | .ok _ => none)
-  let mro : List (String × List String) := match e.getObjVal? "mro" with
-    | .ok (.arr rows) => rows.toList.filterMap (fun row => match row with
-        | .arr #[.str c, .arr ns] => some (c, ns.toList.filterMap (fun n => n.getStr?.toOption))
-        | _ => none)
-    | _ => []
-  let optArr := fun (k : String) => match e.getObjVal? k with | .ok (.arr rows) => rows.toList | _ => []
-  let inspect := (optArr "inspect").filterMap (fun row => match row with
-    | .arr #[a, .bool b1, .bool b2, .bool b3, .bool b4, c] =>
-      match a.getNat?, c.getNat? with | .ok x, .ok y => some (x, b1, b2, b3, b4, y) | _, _ => none
-    | _ => none)
-  let printed := (optArr "printed").filterMap (fun row => match row with
-    | .arr #[a, b, .str t] => match a.getNat?, b.getNat? with | .ok x, .ok y => some (x, y, t) | _, _ => none
-    | _ => none)
-  let parseint := (optArr "parseint").filterMap (fun row => match row with
-    | .arr #[.str t, .null] => some (t, none)
-    | .arr #[.str t, n] => match n.getInt? with | .ok i => some (t, some i) | _ => none
-    | _ => none)
-  let strList := fun (x : Json) => match x with
-    | .arr xs => xs.toList.filterMap (fun y => y.getStr?.toOption) | _ => []
-  let flagfile := (optArr "flagfile").filterMap (fun row => match row with
+  let mro : List (String × List String) ← (← arr (← e.getObjVal? "mro")).mapM (fun row =>
+    match row with
+    | .arr #[.str c, .arr ns] => do
+      let names ← ns.toList.mapM (fun n => n.getStr?)
+      pure (c, names)
+    | _ => throw s!"bad mro row {row.compress}")
+  let reqArr := fun (k : String) => do arr (← e.getObjVal? k)
+  let inspect ← (← reqArr "inspect").mapM (fun row => match row with
+    | .arr #[a, .bool b1, .bool b2, .bool b3, .bool b4, c] => do pure ((← a.getNat?), b1, b2, b3, b4, (← c.getNat?))
+    | _ => throw s!"bad inspect row {row.compress}")
+  let printed ← (← reqArr "printed").mapM (fun row => match row with
+    | .arr #[a, b, .str t] => do pure ((← a.getNat?), (← b.getNat?), t)
+    | _ => throw s!"bad printed row {row.compress}")
+  let parseint ← (← reqArr "parseint").mapM (fun row => match row with
+    | .arr #[.str t, .null] => pure (t, (none : Option Int))
+    | .arr #[.str t, n] => do pure (t, some (← n.getInt?))
+    | _ => throw s!"bad parseint row {row.compress}")
+  let strList := fun (x : Json) => do (← arr x).mapM (fun y => y.getStr?)
+  let flagfile ← (← reqArr "flagfile").mapM (fun row => match row with
     | .arr #[.str p, r] =>
-      if let .ok c := r.getObjValAs? String "err" then some (p, .error (true, c))
-      else if let .ok c := r.getObjValAs? String "exc" then some (p, .error (false, c))
-      else match r.getObjVal? "lines" with
-        | .ok (.arr ls) => some (p, .ok (ls.toList.map (fun l =>
-            if let .ok c := l.getObjValAs? String "err" then (.error c : Except String (List String))
-            else match l.getObjVal? "tok" with | .ok t => .ok (strList t) | _ => .error "<bad-oracle>")))
-        | _ => none
-    | _ => none)
-  let abspath := (optArr "abspath").filterMap (fun row => match row with
-    | .arr #[.str a, .str b] => some (a, b) | _ => none)
+      if let .ok c := r.getObjValAs? String "err" then
+        pure (p, (.error (true, c) : Except (Bool × String) (List (Except String (List String)))))
+      else if let .ok c := r.getObjValAs? String "exc" then pure (p, .error (false, c))
+      else do
+        let ls ← arr (← r.getObjVal? "lines")
+        let lines ← ls.mapM (fun l =>
+          if let .ok c := l.getObjValAs? String "err" then pure (.error c : Except String (List String))
+          else do pure (.ok (← strList (← l.getObjVal? "tok"))))
+        pure (p, .ok lines)
+    | _ => throw s!"bad flagfile row {row.compress}")
+  let abspath ← (← reqArr "abspath").mapM (fun row => match row with
+    | .arr #[.str a, .str b] => pure (a, b)
+    | _ => throw s!"bad abspath row {row.compress}")
+  -- every result the library table names has its `scalar` row (is_scalar / str)
+  for g in glom do
+    match g.2.2 with
+    | .ok rid => if !(scalar.any (·.1 == rid)) then throw s!"oracle: result {rid} has no scalar row"
+    | _ => pure ()
   return { inspect := inspect, printed := printed, parseint := parseint,
-           help := (e.getObjValAs? String "help").toOption.getD "<no-oracle>",
+           help := (← nullableStr e "help").getD "<no-oracle>",
            flagfile := flagfile, abspath := abspath,
            parse := parse, load := load, repr := repr, strspec := strspec,
            emptySpec := ← e.getObjValAs? Nat "empty_spec", emptyTarget := ← e.getObjValAs? Nat "empty_target",
@@ -217,20 +244,42 @@ def extFactsOk (t : Tables) (X : Ext Nat Nat Nat) (w : World) : Bool :=
     | .error c => c == "<no-oracle>" || (X.mro c).contains "Exception"
     | .ok _ => true) &&
   t.readErr.all (fun r => isTextReadErrB X r.2) &&
-  (match w.stdinErr with | some c => !w.stdinOpen || isTextReadErrB X c | none => true) &&
+  (match w.readErr with
+   | some c => (X.mro c).contains "Exception" && (X.mro c).contains "BaseException" &&
+       ((X.mro c).contains "OSError" || (X.mro c).contains "ValueError" || (X.mro c).contains "AttributeError")
+   | none => true) &&
   -- the library call prints nothing unless the spec is an Inspect built by --debug / --inspect
   t.printed.all (fun r => r.2.2.isEmpty || t.inspect.any (fun i => i.2.2.2.2.2 == r.2.1))
 
 def argvOfJson (j : Json) : Except String Argv := do
   let pos ← (← arr (← j.getObjVal? "posargs")).mapM (fun x => x.getStr?)
-  let ind : Option Int := match j.getObjVal? "indent" with
-    | .ok (.num n) => if n.exponent == 0 then some n.mantissa else none
-    | _ => none
-  return { posargs := pos, targetFile := optStr j "target_file", targetFormat := optStr j "target_format",
-           specFile := optStr j "spec_file", specFormat := optStr j "spec_format", indent := ind,
-           scalar := (j.getObjValAs? Bool "scalar").toOption.getD false,
-           debug := (j.getObjValAs? Bool "debug").toOption.getD false,
-           inspect := (j.getObjValAs? Bool "inspect").toOption.getD false }
+  return { posargs := pos, targetFile := ← nullableStr j "target_file", targetFormat := ← nullableStr j "target_format",
+           specFile := ← nullableStr j "spec_file", specFormat := ← nullableStr j "spec_format",
+           indent := ← nullableInt j "indent", scalar := ← reqBool j "scalar",
+           debug := ← reqBool j "debug", inspect := ← reqBool j "inspect" }
+
+def stdinStateOf (s : String) : Except String StdinState :=
+  if s == "open" then .ok .open else if s == "closed" then .ok .closed
+  else if s == "absent" then .ok .absent else .error s!"bad stdin_state {s}"
+
+/-- the marker of a table lookup that found no row -/
+def noOracle : String := "<no-oracle>"
+
+def hasNoOracle (s : String) : Bool := (s.splitOn noOracle).length > 1
+
+/-- did this outcome go through a lookup the oracle has no row for -/
+def outcomeNoOracle : Outcome → Bool
+  | .exit _ s => hasNoOracle s
+  | .usage (.loadError c) => hasNoOracle c
+  | .exc c => hasNoOracle c
+  | _ => false
+
+def expectNoOracle : Expect → Bool
+  | .result s => hasNoOracle s
+  | .glomError c => hasNoOracle c
+  | .unserialisable c => hasNoOracle c
+  | .libOther c => hasNoOracle c
+  | _ => false
 
 def outcomeOfJson (j : Json) : Except String Outcome := do
   if let .ok e := j.getObjVal? "exit" then
@@ -242,10 +291,10 @@ def outcomeOfJson (j : Json) : Except String Outcome := do
   else if let .ok c := j.getObjValAs? String "exc" then return .exc c
   else throw s!"bad outcome {j.compress}"
 
-/-- what is compared: a GlomError exit by class name only, a usage error without its kind -/
+/-- what is compared: everything but the kind of a usage error / of a rejected command line
+    (the `Class: message` line of a GlomError in full) -/
 def canon (o : Outcome) : Outcome :=
   match o with
-  | .exit 1 out => .exit 1 (String.ofList (out.toList.takeWhile (· != ':')))
   | .usage _ => .usage .specBoth
   | .cli _ => .cli .emptyArgv
   | o => o
@@ -259,6 +308,7 @@ def outcomeToJson : Outcome → Json
 def expectTag : Expect → String
   | .result _ => "result" | .glomError c => s!"glomerror-{c}" | .targetUsage => "target-usage"
   | .noResult => "malformed-spec" | .silent => "silent"
+  | .unserialisable c => s!"unserialisable-{c}" | .libOther c => s!"lib-other-{c}"
 
 def outTag (o : Outcome) : String :=
   match canon o with | .exit c _ => s!"exit{c}" | .usage _ => "usage" | .cli _ => "cli" | .exc c => s!"exc-{c}"
@@ -279,13 +329,10 @@ def runChannels (j : Json) (t : Tables) (hostile : Bool) : Except String Json :=
   let rq ← j.getObjVal? "req"
   let specPath ← rq.getObjValAs? String "spec_path"
   let targetPath ← rq.getObjValAs? String "target_path"
-  let ind : Option Int := match rq.getObjVal? "indent" with
-    | .ok (.num n) => if n.exponent == 0 then some n.mantissa else none
-    | _ => none
   let q : Request :=
     { specText := ← rq.getObjValAs? String "spec", targetText := ← rq.getObjValAs? String "target",
-      sv := .argv, tv := .argv, targetFormat := optStr rq "fmt", indent := ind,
-      scalar := (rq.getObjValAs? Bool "scalar").toOption.getD false, specFormat := optStr rq "spec_format" }
+      sv := .argv, tv := .argv, targetFormat := ← nullableStr rq "fmt", indent := ← nullableInt rq "indent",
+      scalar := ← reqBool rq "scalar", specFormat := ← nullableStr rq "spec_format" }
   let junk ← rq.getObjValAs? String "junk"
   let tty ← rq.getObjValAs? Bool "tty"
   let vias ← (← arr (← j.getObjVal? "vias")).mapM (fun v => do
@@ -296,10 +343,14 @@ def runChannels (j : Json) (t : Tables) (hostile : Bool) : Except String Json :=
   let X := extOf t
   let F := genFacts
   let models := vias.map (fun v => cliMain F X (q.via v.1 v.2).argv ((q.via v.1 v.2).world junk tty))
+  -- the reference must never run into a lookup the oracle has no row for
+  for v in vias do
+    if expectNoOracle (expect X (q.via v.1 v.2).argv ((q.via v.1 v.2).world junk tty)) then
+      throw s!"oracle incomplete: the reference of delivery {reprStr v} consulted a missing row"
   let holds := checkChannels X q vias junk tty hostile obs
   let modelHolds := checkChannels X q vias junk tty hostile (models.map observe)
-  let factsOk := extFactsOk t X ⟨junk, tty, none, true⟩
-  let agree := models.length == obs.length &&
+  let factsOk := extFactsOk t X ⟨junk, tty, none, .open⟩
+  let agree := models.length == obs.length && !(models.any outcomeNoOracle) &&
     (models.zip obs).all (fun mo => canon mo.1 == canon mo.2.outcome && !mo.2.sideEffect) && factsOk
   let comparable := q.comparable X vias
   let ex := match vias with
@@ -319,15 +370,21 @@ def runChannels (j : Json) (t : Tables) (hostile : Bool) : Except String Json :=
 
 def run (j : Json) : Except String Json := do
   let t ← tablesOfJson (← j.getObjVal? "ext") (← j.getObjVal? "files")
-  let hostile := (j.getObjValAs? Bool "hostile").toOption.getD false
+  let hostile ← reqBool j "hostile"
   if let .ok _ := j.getObjVal? "vias" then
     return ← runChannels j t hostile
   let e ← j.getObjVal? "ext"
-  let stdinText : String := match j.getObjVal? "stdin" with
-    | .ok (.str s) => s
-    | _ => (e.getObjValAs? String "stdin_text").toOption.getD ""
-  let w : World := ⟨stdinText, ← j.getObjValAs? Bool "tty", (e.getObjValAs? String "stdin_err").toOption,
-    (j.getObjValAs? Bool "stdin_open").toOption.getD true⟩
+  -- standard input: a text, or bytes the oracle decoded (`stdin_text`) or could not (`stdin_err`)
+  let stdinErr ← nullableStr e "stdin_err"
+  let stdinText : String ← match j.getObjVal? "stdin" with
+    | .ok (.str s) => pure s
+    | .ok _ => do
+      match ← nullableStr e "stdin_text", stdinErr with
+      | some s, _ => pure s
+      | none, some _ => pure ""
+      | none, none => throw "stdin given as bytes but the oracle has neither stdin_text nor stdin_err"
+    | .error _ => throw "field stdin is missing"
+  let w : World := ⟨stdinText, ← reqBool j "tty", stdinErr, ← stdinStateOf (← j.getObjValAs? String "stdin_state")⟩
   let impl ← j.getObjVal? "impl"
   let implOut ← outcomeOfJson (← impl.getObjVal? "outcome")
   let side ← impl.getObjValAs? Bool "side_effect"
@@ -335,12 +392,14 @@ def run (j : Json) : Except String Json := do
   let F := genFacts
   let tbl := genTable
   -- the flags: parsed by the model from the raw argument list when there is one
-  let given : Option Argv := match j.getObjVal? "argv" with
-    | .ok aj => (argvOfJson aj).toOption
-    | _ => none
-  let raw : Option (List String) := match j.getObjVal? "raw" with
-    | .ok (.arr xs) => some (xs.toList.filterMap (fun x => x.getStr?.toOption))
-    | _ => none
+  let given : Option Argv ← match j.getObjVal? "argv" with
+    | .ok .null => pure none
+    | .ok aj => do pure (some (← argvOfJson aj))
+    | .error _ => pure none
+  let raw : Option (List String) ← match j.getObjVal? "raw" with
+    | .ok (.arr xs) => do pure (some (← xs.toList.mapM (fun x => x.getStr?)))
+    | .ok x => throw s!"field raw: expected an array, got {x.compress}"
+    | .error _ => pure none
   let parsed : Option ParseRes := raw.map (parseArgv tbl X.penv)
   let parseOk := match parsed, given with
     | some (.ok a), some g => a == g
@@ -351,10 +410,12 @@ def run (j : Json) : Except String Json := do
         (match parseArgv tbl X.penv r with | .ok a => some a | _ => none))
     | none, some g => pure (cliMain F X g w, expect X g w, some g)
     | none, none => throw "neither raw nor argv"
+  if expectNoOracle ex then
+    throw "oracle incomplete: the reference consulted a row the tables do not have"
   let holds := checkExpect ex hostile ⟨implOut, side⟩
   let modelHolds := checkExpect ex hostile (observe m)
   let factsOk := extFactsOk t X w
-  let agree := canon m == canon implOut && !side && factsOk && parseOk
+  let agree := canon m == canon implOut && !side && factsOk && parseOk && !outcomeNoOracle m
   let src := match a? with
     | none => "unparsed"
     | some a => (if a.specFile.isSome then "spec:file" else "spec:argv") ++ "," ++
@@ -363,7 +424,7 @@ def run (j : Json) : Except String Json := do
        | [_, _], none => "target:argv"
        | _, some "-" => "target:dashfile"
        | _, some _ => "target:file"
-       | _, none => if w.stdinTty then "target:none" else "target:piped")
+       | _, none => if w.isatty then "target:none" else "target:piped")
   let ptag := match parsed with
     | some .help => "help/"
     | some (.fail (.cli e)) => "cli-" ++ reprStr e ++ "/"
@@ -378,6 +439,7 @@ def run (j : Json) : Except String Json := do
       (if ex == .silent then "" else "/" ++ src) : String)),
     ("why", (if agree then "" else if !factsOk then
         "a trusted fact about the externals does not hold on this case: a loader raised a class outside Exception, a read failed with neither an OSError nor a UnicodeError, or the library call printed something for a spec that is no Inspect"
+      else if outcomeNoOracle m then "the MODEL consulted a row the oracle does not have (it took a path the reference and the implementation did not)"
       else if !parseOk then "the model's parser (Model/C19Face) does not read the raw argument list as the flags the case names"
       else "model outcome differs from the implementation's" : String))]
 
